@@ -560,7 +560,10 @@ func checkNesting(w *world, c geneCase, model []span) *vlib.Failure {
 		return vlib.Failf("orientation-within", "OrientationWithin(transcript, nil) = %d", got)
 	}
 	// 1-based / 0-based conversions
-	for _, v := range []int{c.Pos, -c.Pos, c.TOffset, c.GOffset - 7, 0, -1, 1} {
+	// (also far beyond the 32-bit range, on either side of it and of zero)
+	for _, v := range []int{c.Pos, -c.Pos, c.TOffset, c.GOffset - 7, 0, -1, 1,
+		1<<31 + c.Pos, 1<<31 - 1 - c.Pos%3, 3<<31 + c.Pos, 1<<32 + c.Pos, (c.Pos + 1) << 33, 1<<62 + c.Pos,
+		-(1 << 31) - c.Pos, -(1 << 31) - 1 - c.Pos, -(3 << 31) - c.Pos, -(1 << 62) - c.Pos} {
 		if got := feat.OneToZero(feat.ZeroToOne(v)); got != v {
 			return vlib.Failf("index-conversion", "OneToZero(ZeroToOne(%d)) = %d", v, got)
 		}
